@@ -1,0 +1,24 @@
+//go:build verif
+
+// Contracts for package server, checked by /verif/govc. Comment-only.
+package server
+
+// ---------------------------------------------------------------------------------------------
+// Authentication of the first packet (C07) and the replay cache (C08).
+// ---------------------------------------------------------------------------------------------
+//@ ghost func authKey(fr authFragments) int { return uf("aead_mk", 1, prefix(fr.sharedSecret, 32), 32, 0) }
+//@ ghost func authValid(fr authFragments) bool { return ufb("aead_valid", authKey(fr), prefix(fr.randPubKey, 12), 12, prefix(fr.ciphertextWithTag, 64), 64) }
+//@ ghost func authPlain(fr authFragments, k int) byte { return ufbytes("aead_open", k, authKey(fr), prefix(fr.randPubKey, 12), 12, prefix(fr.ciphertextWithTag, 64), 64) }
+//@ ghost func authTs(fr authFragments) int { return int(authPlain(fr, 29))*72057594037927936 + int(authPlain(fr, 30))*281474976710656 + int(authPlain(fr, 31))*1099511627776 + int(authPlain(fr, 32))*4294967296 + int(authPlain(fr, 33))*16777216 + int(authPlain(fr, 34))*65536 + int(authPlain(fr, 35))*256 + int(authPlain(fr, 36)) }
+//@ ghost func tsSigned(u int) int { return signed64(u) }
+
+// decryptClientInfo: accepted only if the 64 sealed bytes open under the shared secret with the first 12
+// bytes of the ephemeral key as nonce, and the embedded timestamp is STRICTLY inside the +-180 s window.
+//@ func decryptClientInfo
+//@   ensures authenticated: err == nil ==> authValid(fragments)
+//@   ensures forgedRejected: !authValid(fragments) ==> err != nil
+//@   ensures windowStrict: err == nil ==> nanos(serverTime) - 180000000000 < tsSigned(authTs(fragments)) * 1000000000 && tsSigned(authTs(fragments)) * 1000000000 < nanos(serverTime) + 180000000000
+//@   ensures timelyAccepted: authValid(fragments) && nanos(serverTime) - 180000000000 < tsSigned(authTs(fragments)) * 1000000000 && tsSigned(authTs(fragments)) * 1000000000 < nanos(serverTime) + 180000000000 ==> err == nil
+//@   ensures fields: err == nil ==> len(info.UID) == 16 && (forall k int :: 0 <= k && k < 16 ==> info.UID[k] == authPlain(fragments, k)) && info.EncryptionMethod == authPlain(fragments, 28) && info.Unordered == (authPlain(fragments, 41) % 2 == 1)
+//@   ensures sessionId: err == nil ==> int(info.SessionId) == int(authPlain(fragments, 37))*16777216 + int(authPlain(fragments, 38))*65536 + int(authPlain(fragments, 39))*256 + int(authPlain(fragments, 40))
+//@   flag noframe
